@@ -5,6 +5,10 @@
 
 #include <yaclib/async/contract.hpp>
 #include <yaclib/async/join.hpp>
+#include <yaclib/async/make.hpp>
+#include <yaclib/async/run.hpp>
+#include <yaclib/exe/manual.hpp>
+#include <yaclib/lazy/schedule.hpp>
 #include <yaclib/async/wait.hpp>
 #include <yaclib/async/wait_for.hpp>
 #include <yaclib/async/wait_until.hpp>
@@ -20,6 +24,7 @@
 
 #include <chrono>
 #include <thread>
+#include <tuple>
 #include <vector>
 
 using namespace vf;
@@ -338,6 +343,77 @@ void WaitCase(Ctx& ctx) {
   (void)sum;
 }
 
+// A step that unwraps a returned Future / Task moves the inner result into its own state: no copy of the payload and no
+// heap block when the inner future completes, whichever kind of step it is (first step of Run / Schedule included).
+void UnwrapCase(Ctx& ctx) {
+  int head = static_cast<int>(ctx.rng.Below(5));  // 0 Run(e,f) 1 Schedule(e,f).ToFuture() 2 ThenInline 3 Then(e) 4 Schedule(e,f) returning a Task
+  bool pending = ctx.rng.Coin();
+  int x = static_cast<int>(ctx.rng.In(1, 1000));
+  static const char* const kHead[] = {"Run(e, f)", "Schedule(e, f).ToFuture()", "ThenInline(f)", "Then(e, f)", "Schedule(e, f -> Task).ToFuture()"};
+  auto manual = yaclib::MakeManual();
+  auto [inner_f0, inner_p0] = yaclib::MakeContract<Blob>();
+  auto inner_f = std::move(inner_f0);
+  auto inner_p = std::move(inner_p0);
+  Blob value{x};
+  if (!pending) {
+    std::move(inner_p).Set(std::move(value));
+  }
+  long c0 = Blob::copies;
+  yaclib::Future<Blob> out;
+  auto give = [&]() -> yaclib::Future<Blob> {
+    return std::move(inner_f);
+  };
+  switch (head) {
+    case 0:
+      out = yaclib::Run(*manual, give).On(nullptr);
+      break;
+    case 1:
+      out = yaclib::Schedule(*manual, give).ToFuture();
+      break;
+    case 2:
+      out = yaclib::MakeFuture().ThenInline(give);
+      break;
+    case 3:
+      out = yaclib::MakeFuture().Then(*manual, give).On(nullptr);
+      break;
+    default:
+      out = yaclib::Schedule(*manual, [&]() -> yaclib::Task<Blob> {
+              return yaclib::Schedule(*manual, [&]() -> Blob {
+                return Blob{x};
+              });
+            }).ToFuture();
+      pending = false;
+      break;
+  }
+  std::ignore = static_cast<yaclib::ManualExecutor&>(*manual).Drain();
+  long w0 = News();
+  if (pending) {
+    std::move(inner_p).Set(std::move(value));
+  }
+  std::ignore = static_cast<yaclib::ManualExecutor&>(*manual).Drain();
+  bool ready = out.Ready();
+  int got = -1;
+  if (ready) {
+    auto r = std::move(out).Get();
+    got = r ? std::as_const(r).Value().data[0] : -2;
+  }
+  long window = News() - w0;
+  long copies = Blob::copies - c0;
+  ctx.Note("%s whose functor returns a %s future of a heap-owning value: %ld payload copies, %ld allocations while the inner "
+           "result arrives and is read", kHead[head], pending ? "pending" : "ready", copies, window);
+  ctx.SetNontrivial(true);
+  ctx.Observe(static_cast<u64>(head * 2 + (pending ? 1 : 0)));
+  ctx.Class(pending ? "inner-pending" : "inner-ready");
+  ctx.Check(ready && got == x, "unwrap-result", "C20", "%s did not deliver the inner value (ready=%d got=%d want=%d)", kHead[head],
+            (int)ready, got, x);
+  ctx.Check(copies == 0, "payload-copied", "C20", "%s copied the inner future's payload %ld times instead of moving it", kHead[head],
+            copies);
+  if (head != 4) {
+    ctx.Check(window == 0, "unwrap-allocates", "C20", "%s made %ld heap allocations when the inner future completed and was read",
+              kHead[head], window);
+  }
+}
+
 void StrandCase(Ctx& ctx) {
   auto manual = yaclib::MakeManual();
   auto strand = yaclib::MakeStrand(manual);
@@ -458,6 +534,9 @@ VF_CELL(al_comb_sta, "combinators/static", "C20", 6) {
 }
 VF_CELL(al_wait, "wait-and-get", "C20", 14) {
   WaitCase(ctx);
+}
+VF_CELL(al_unwrap, "unwrapping-step", "C20", 5) {
+  UnwrapCase(ctx);
 }
 VF_CELL(al_strand, "strand-submit", "C20", 3) {
   StrandCase(ctx);
